@@ -1,0 +1,45 @@
+//go:build verif
+// +build verif
+
+package chained_bft
+
+import (
+	xuperp2p "github.com/xuperchain/xupercore/protos"
+)
+
+// export_verif.go is compiled only with the build tag "verif". It adds exported wrappers around
+// package-private entry points of QCPendingTree and Smr for the out-of-tree verification harness.
+// The wrappers add no behaviour of their own.
+
+// VerifUpdateQcStatus is updateQcStatus (duplicate test, insert, updateHighQC(parent)).
+func (t *QCPendingTree) VerifUpdateQcStatus(node *ProposalNode) error {
+	return t.updateQcStatus(node)
+}
+
+// VerifInsert is insert.
+func (t *QCPendingTree) VerifInsert(node *ProposalNode) error { return t.insert(node) }
+
+// VerifUpdateHighQC is updateHighQC.
+func (t *QCPendingTree) VerifUpdateHighQC(id []byte) { t.updateHighQC(id) }
+
+// VerifEnforceUpdateHighQC is enforceUpdateHighQC.
+func (t *QCPendingTree) VerifEnforceUpdateHighQC(id []byte) error {
+	return t.enforceUpdateHighQC(id)
+}
+
+// VerifUpdateCommit is updateCommit.
+func (t *QCPendingTree) VerifUpdateCommit(id []byte) { t.updateCommit(id) }
+
+// VerifQcTree returns the pending tree owned by the smr.
+func (s *Smr) VerifQcTree() *QCPendingTree { return s.qcTree }
+
+// VerifHandleReceivedProposal runs handleReceivedProposal synchronously.
+func (s *Smr) VerifHandleReceivedProposal(msg *xuperp2p.XuperMessage) { s.handleReceivedProposal(msg) }
+
+// VerifHandleReceivedVoteMsg runs handleReceivedVoteMsg synchronously.
+func (s *Smr) VerifHandleReceivedVoteMsg(msg *xuperp2p.XuperMessage) error {
+	return s.handleReceivedVoteMsg(msg)
+}
+
+// VerifLedgerState returns the ledger height the smr has been told about.
+func (s *Smr) VerifLedgerState() int64 { return s.ledgerState }
